@@ -15,6 +15,7 @@ Inductive akind := DivZero | NegShift | IndexRange | SliceRange | NilDeref | Oth
 
 Inductive instr :=
 | IBin (op : binop) (w : Z) (a b : operand)
+| IBinF (op : binop) (fl : N) (w : Z) (a b : operand)   (* with flags: 1 = nsw, 2 = nuw, 4 = exact *)
 | ICmp (p : pred) (w : Z) (a b : operand)
 | ISelect (w : Z) (c a b : operand)
 | ICast (op : castop) (wfrom wto : Z) (a : operand)
@@ -56,6 +57,36 @@ Definition eval_bin (op : binop) (w a b : Z) : res :=
   | AShr => if b <? w then RVal (Some (wrap w (sgn w a / 2 ^ b))) else RVal None
   end.
 
+(* LangRef: with nsw / nuw the result is poison when signed / unsigned overflow
+   occurs, with exact when the division or right shift is not exact *)
+Definition fits_s (w v : Z) : bool := (- 2 ^ (w - 1) <=? v) && (v <? 2 ^ (w - 1)).
+Definition fits_u (w v : Z) : bool := (0 <=? v) && (v <? 2 ^ w).
+Definition flag_poison (op : binop) (fl : N) (w a b : Z) : bool :=
+  (N.testbit fl 0 &&
+   match op with
+   | Add => negb (fits_s w (sgn w a + sgn w b))
+   | Sub => negb (fits_s w (sgn w a - sgn w b))
+   | Mul => negb (fits_s w (sgn w a * sgn w b))
+   | Shl => negb (fits_s w (sgn w a * 2 ^ b))
+   | _ => false
+   end)
+  || (N.testbit fl 1 &&
+   match op with
+   | Add => negb (fits_u w (a + b))
+   | Sub => negb (fits_u w (a - b))
+   | Mul => negb (fits_u w (a * b))
+   | Shl => negb (fits_u w (a * 2 ^ b))
+   | _ => false
+   end)
+  || (N.testbit fl 2 &&
+   match op with
+   | UDiv => negb (a mod b =? 0)
+   | SDiv => negb (Z.rem (sgn w a) (sgn w b) =? 0)
+   | LShr => negb (a mod 2 ^ b =? 0)
+   | AShr => negb (sgn w a mod 2 ^ b =? 0)
+   | _ => false
+   end).
+
 Definition eval_pred (p : pred) (w a b : Z) : bool :=
   match p with
   | Peq => a =? b | Pne => negb (a =? b)
@@ -86,6 +117,17 @@ Definition step (e : env) (i : instr) : step_res :=
       | RUB => SStop UB
       end
     | Some _, Some _ => SNext (e ++ [None])          (* poison operand *)
+    | _, _ => SStop Malformed
+    end
+  | IBinF op fl w a b =>
+    match get e a w, get e b w with
+    | Some (Some x), Some (Some y) =>
+      match eval_bin op w x y with
+      | RVal (Some v) => SNext (e ++ [if flag_poison op fl w x y then None else Some v])
+      | RVal None => SNext (e ++ [None])
+      | RUB => SStop UB
+      end
+    | Some _, Some _ => SNext (e ++ [None])
     | _, _ => SStop Malformed
     end
   | ICmp p w a b =>
@@ -169,6 +211,8 @@ Definition opw_eqb (w : Z) (a b : operand) : bool :=
 Definition instr_eqb (a b : instr) : bool :=
   match a, b with
   | IBin o w x y, IBin o' w' x' y' => binop_eqb o o' && (w =? w') && opw_eqb w x x' && opw_eqb w y y'
+  | IBinF o fl w x y, IBinF o' fl' w' x' y' =>
+      binop_eqb o o' && N.eqb fl fl' && (w =? w') && opw_eqb w x x' && opw_eqb w y y'
   | ICmp p w x y, ICmp p' w' x' y' => pred_eqb p p' && (w =? w') && opw_eqb w x x' && opw_eqb w y y'
   | ISelect w c x y, ISelect w' c' x' y' => (w =? w') && opw_eqb 1 c c' && opw_eqb w x x' && opw_eqb w y y'
   | ICast o f t x, ICast o' f' t' x' => castop_eqb o o' && (f =? f') && (t =? t') && opw_eqb f x x'
